@@ -21,6 +21,17 @@ NoAi(d) == [c \in Containers |-> [i \in 1..Len(d[c]) |-> Bare(d[c][i])]]
 (* merge: the order inside a container follows the other document's iteration order - compared as sets, with multiplicity *)
 AsBag(d) == [c \in Containers |-> {<<Bare(d[c][i]), Cardinality({j \in 1..Len(d[c]) : Bare(d[c][j]) = Bare(d[c][i])})>> : i \in 1..Len(d[c])}]
 
+(* a helper that makes up a style name (set_table_displayed, add_page_break_style) must not make a second style of a     *)
+(* family + name that exists anywhere in the document: no pair is more numerous after the call than before, unless single *)
+CountKey(d, k) == LET RECURSIVE Sum(_)
+                      Sum(cs) == IF cs = {} THEN 0
+                                 ELSE LET c == CHOOSE x \in cs : TRUE
+                                      IN Cardinality({i \in 1..Len(d[c]) : Key(d[c][i]) = k}) + Sum(cs \ {c})
+                  IN Sum(Containers)
+NoNewHomonym(pre, post) ==
+    \A c \in Containers : \A i \in 1..Len(post[c]) :
+        LET k == Key(post[c][i]) IN CountKey(post, k) > 1 => CountKey(pre, k) >= CountKey(post, k)
+
 Verdict(ev) ==
     LET o == ev.op
         pre == AsDoc(ev.pre)
@@ -49,9 +60,12 @@ Verdict(ev) ==
             \cup (IF ~Has(ev, "exc") /\ ~Contains(post, pre) THEN {"set_table_displayed-lost-a-style"} ELSE {})
             \cup (IF ~Has(ev, "exc") /\ ~Unique(post) THEN {"duplicate-family-name"} ELSE {})
             \cup (IF ~Has(ev, "exc") /\ ~ev.table_style_found THEN {"lookup"} ELSE {})
+            \cup (IF ~Has(ev, "exc") /\ ~NoNewHomonym(pre, post) THEN {"duplicate-family-name"} ELSE {})
        ELSE IF o.op = "add_page_break_style" THEN
             (IF Has(ev, "exc") THEN {"exc"} ELSE {})
             \cup (IF ~Has(ev, "exc") /\ ~(Contains(post, pre) /\ Count(post) <= Count(pre) + 1) THEN {"add_page_break_style"} ELSE {})
+            \* the style is found again under its name, with the property that makes it a page break
+            \cup (IF ~Has(ev, "exc") /\ Has(ev, "pagebreak_ok") /\ ~ev.pagebreak_ok THEN {"lookup"} ELSE {})
             \cup (IF ~Has(ev, "exc") /\ ~Unique(post) THEN {"duplicate-family-name"} ELSE {})
        ELSE {}
 
